@@ -211,7 +211,7 @@ pub fn c16_tls(args: &Args, rt: &tokio::runtime::Runtime, ev: &mut Evidence) {
                     }
                 };
                 let authz = i % 2 == 1;
-                let Some(filter) = f.to_rodbus() else { return ev };
+                let Some(filter) = crate::c16::to_rodbus(&f) else { return ev };
                 let srv = match start_tls_server(false, false, authz, filter).await {
                     Ok(s) => s,
                     Err(e) => {
